@@ -194,6 +194,8 @@ func SpecMatch(pattern string, hasWild bool, s string) bool {
 // Set at construction only.
 //@ immutable EventSubscription.ResourceName, EventSubscription.cache, ResourceSubscription.e, ResourceSubscription.query
 //@ immutable Cache.mq, Cache.resetThrottle, Cache.metrics
+// An access verdict is never modified after it has been created.
+//@ immutable Access.AccessResult, Access.Error
 
 // Callbacks stored in the per-resource work queue are run exactly once by processQueue.
 //@ pending EventSubscription.queue, EventSubscription.locks
@@ -205,6 +207,7 @@ func SpecMatch(pattern string, hasWild bool, s string) bool {
 
 //@ func mq.Client.SendRequest
 //@   trusted
+//@   defers cb
 //@   resolves cb exactly-once
 //@   callback cb requires err != nil ==> reserr.predErrOK(err)
 //@   assigns nothing
@@ -240,6 +243,7 @@ func SpecMatch(pattern string, hasWild bool, s string) bool {
 
 //@ func mq.Client.Subscribe
 //@   trusted
+//@   defers cb
 //@   ensures result1 == nil ==> result0 != nil
 //@   assigns nothing
 
@@ -267,6 +271,7 @@ func SpecMatch(pattern string, hasWild bool, s string) bool {
 // The per-resource work queue runs every function exactly once, in order.
 //@ func (*EventSubscription).Enqueue
 //@   requires e != nil && e.cache != nil
+//@   defers f
 //@   resolves[C07] f exactly-once
 //@   ensures[C03] len(e.queue) == old(len(e.queue)) + 1 && e.queue[len(e.queue)-1] == f
 //@   ensures[C03] forall k int :: 0 <= k && k < old(len(e.queue)) ==> e.queue[k] == old(e.queue[k])
@@ -276,10 +281,11 @@ func SpecMatch(pattern string, hasWild bool, s string) bool {
 // sendRequest takes one use of the resource's cache entry before the request is sent and
 // releases exactly that use after the response callback has run.
 //@ func (*Cache).sendRequest
+//@   defers cb
 //@   requires predCacheOK(c) && c.mq != nil
 //@   resolves[C07] cb exactly-once
 //@   callback cb requires err != nil ==> reserr.predErrOK(err)
-//@   assigns pkgstate(rescache), containers()
+//@   assigns pkgstate(rescache), funcqueues()
 //@   safety[C15]
 //@ closure (*Cache).sendRequest#1
 //@   requires eventSub != nil && eventSub.cache != nil
@@ -304,38 +310,41 @@ func SpecMatch(pattern string, hasWild bool, s string) bool {
 //@ func (*Cache).Subscribe
 //@   requires c != nil && sub != nil
 //@   assumes predCacheOK(c)
-//@   assigns pkgstate(rescache), containers()
+//@   assigns pkgstate(rescache), funcqueues()
 
 // Access: exactly one verdict per request; a transport error or a missing result is a denial
 // (the verdict then carries the error), so a verdict is always well formed.
 //@ func (*Cache).Access
+//@   defers callback
 //@   requires c != nil && sub != nil
 //@   assumes predCacheOK(c) && c.mq != nil
 //@   resolves[C07] callback exactly-once
 //@   callback callback requires[C04] access != nil && (access.Error != nil || access.AccessResult != nil)
-//@   assigns pkgstate(rescache), containers()
+//@   assigns pkgstate(rescache), funcqueues()
 //@   safety[C15]
 //@ closure (*Cache).Access#1
 //@   resolves[C07] callback exactly-once
 //@   safety[C15]
 
 //@ func (*Cache).Call
+//@   defers callback
 //@   callback callback requires err != nil ==> reserr.predErrOK(err)
 //@   requires c != nil && req != nil
 //@   assumes predCacheOK(c) && c.mq != nil
 //@   resolves[C07] callback exactly-once
-//@   assigns pkgstate(rescache), containers()
+//@   assigns pkgstate(rescache), funcqueues()
 //@   safety[C15]
 //@ closure (*Cache).Call#1
 //@   resolves[C07] callback exactly-once
 //@   safety[C15]
 
 //@ func (*Cache).Auth
+//@   defers callback
 //@   callback callback requires err != nil ==> reserr.predErrOK(err)
 //@   requires c != nil && req != nil
 //@   assumes predCacheOK(c) && c.mq != nil
 //@   resolves[C07] callback exactly-once
-//@   assigns pkgstate(rescache), containers()
+//@   assigns pkgstate(rescache), funcqueues()
 //@   safety[C15]
 //@ closure (*Cache).Auth#1
 //@   resolves[C07] callback exactly-once
